@@ -59,6 +59,22 @@ def render(lines, newline_at_end=True, cls=""):
     return text + ("\n" if newline_at_end else "")
 
 
+def token_ends(b, text):
+    """byte offset of the end of every token of the model in the text of the file (the title word that follows a comment
+    mark in the rendering is not a token of the model)"""
+    ends = []
+    pos = 0
+    for l in b["lines"]:
+        for t in l:
+            r = "0" if t == "*" and b["c"] not in ("Raw", "CSV") else t
+            k = text.find(r, pos)
+            if k < 0:
+                return [m.end() for m in re.finditer(r"\S+", text)]
+            pos = k + len(r)
+            ends.append(pos)
+    return ends
+
+
 def raw_fault(orig, ft):
     """a fault chosen by TLC (on the lines of tokens of a file of a grid exchange format) applied to the ORIGINAL text of the
     file: these formats are sensitive to the layout of their lines, which a rendering from tokens would lose"""
@@ -256,10 +272,16 @@ DEATH_PREDS = {"vecOverflow", "writeUnsized", "useAfterClear", "count", "gridSiz
 LENIENT_ORDER = ["dbPartIgnored", "uninitReturn", "wordAsZero", "eofDefault"]
 
 
-def pred_class(unsafe):
-    """the memory-unsafe / unbounded behaviour that the transcription of the real reader predicts for a file"""
+def pred_class(unsafe, kind=None):
+    """the memory-unsafe / unbounded behaviour that the transcription of the real reader predicts for a file (for an
+    outcome that is not a death of the process -- inconsistent or unusable object -- the predictions that explain such an
+    outcome come first)"""
     ev = {("count" if e in COUNT_EVENTS else e) for e in unsafe}
-    for k in PRED_ORDER:
+    order = PRED_ORDER
+    if kind in ("inconsistent", "unusable"):
+        soft = ["emptyPolyline", "nameHash", "badDims", "gridSizeMismatch", "badGrid", "badIndex"]
+        order = soft + [k for k in PRED_ORDER if k not in soft]
+    for k in order:
         if k in ev:
             return k
     return "+".join(sorted(ev)) or "none"
@@ -326,6 +348,8 @@ def evaluate(ck, files, outs, sani, tag):
                 found = dict(rec, kind="unusable", what="reload-failed")
             elif fails2:
                 found = dict(rec, kind="unusable", what="reloaded-inconsistent:" + "+".join(sorted(fails2)))
+        if found:
+            found["pred"] = pred_class(f.get("unsafe", []), found["kind"])
         stats[(f.get("verdict", "?"), "violating" if found else oc)] += 1
         if found:
             ck.disagree(found, replay)
@@ -407,9 +431,10 @@ def _run(ck, tier):
     if tier == "thorough":
         # every byte prefix of every valid file (rendered from the model; as written by the library for the exchange formats)
         trunc_pred = {(e["base"], e["k"]): e for e in faults if e["kind"] == "trunc"}
+        trunc_pred.update({(e["base"], "tagonly"): e for e in faults if e["kind"] == "tagonly"})
         for b in sorted(bases.values(), key=lambda b: b["base"]):
             text = b["orig"] if b["c"] == "Raw" else render(b["lines"], True, b["c"])
-            ends = [m.end() for m in re.finditer(r"\S+", text)]
+            ends = token_ends(b, text)
             for k in range(0, len(text)):
                 fid += 1
                 nbytes += 1
@@ -417,6 +442,11 @@ def _run(ck, tier):
                 # token is read as nothing or as another value of the same field)
                 n = sum(1 for x in ends if x <= k)
                 near = [trunc_pred[(b["base"], j)] for j in (n, n + 1) if (b["base"], j) in trunc_pred]
+                if n >= len(ends):
+                    # every token is there: the valid file (up to its last title / end of line)
+                    near = [{"verdict": "MaySucceed", "unsafe": b.get("unsafe", []), "rev": b.get("rev", [])}]
+                if text[:k].count("\n") == 1 and text[:k].endswith("\n") and (b["base"], "tagonly") in trunc_pred:
+                    near = [trunc_pred[(b["base"], "tagonly")]]          # the first line alone, with its end of line
                 files.append(file_record({"base": b["base"], "c": b["c"], "kind": "truncbyte", "k": k, "t": "",
                                           "verdict": "MaySucceed" if any(x["verdict"] == "MaySucceed" for x in near) else "MustFail",
                                           "unsafe": sorted({u for x in near for u in x["unsafe"]}), "rev": sorted({u for x in near for u in x["rev"]})},
@@ -438,7 +468,8 @@ def _run(ck, tier):
     valid = []
     for b in sorted(bases.values(), key=lambda b: b["base"]):
         fid += 1
-        v = file_record({"base": b["base"], "c": b["c"], "kind": "valid", "k": 0, "t": "", "verdict": "MaySucceed", "unsafe": [], "rev": []},
+        v = file_record({"base": b["base"], "c": b["c"], "kind": "valid", "k": 0, "t": "", "verdict": "MaySucceed",
+                         "unsafe": b.get("unsafe", []), "rev": b.get("rev", [])},
                         fid, bases, text=b["orig"] if b["c"] == "Raw" else render(b["lines"], True, b["c"]))
         v["realok"] = b.get("realok", True) and not (b["c"] == "Raw" and b["fmt"] == "F2G")
         valid.append(v)
@@ -507,7 +538,7 @@ def _run(ck, tier):
                          (v["text"][:300], outs[v["id"]], sani.get(v["id"])))
     stats = evaluate(ck, files + valid, outs, sani, "main")
     per_kind = collections.Counter(f["kind"] for f in files)
-    for k in ("trunc", "corrupt", "emptyline", "wrongclass", "dupline", "dropline"):
+    for k in ("trunc", "corrupt", "emptyline", "wrongclass", "dupline", "dropline", "tagonly"):
         if per_kind[k] == 0:
             raise Broken("no fault of kind %s was generated" % k)
     div = collections.Counter(e["diverge"] for e in faults)
@@ -532,4 +563,9 @@ def _run(ck, tier):
                        "a success of the real loader on a file that the intended reader refuses is allowed when the object is consistent "
                        "and can be saved and reloaded (property text)",
                        "consistency of returned objects = the structural rules of TraceNeutralFault.tla on the projection through public getters"]
+    # classes of the violations (the first 20 get a replay file each)
+    vc = collections.Counter((r.get("class"), r.get("fault"), r.get("kind"), r.get("stage"), str(r.get("what"))[:60], r.get("pred"), r.get("lenient")) for r, _ in ck.violations)
+    for k, n in sorted(vc.items(), key=lambda kv: -kv[1])[:40]:
+        log("   %5d x %s" % (n, k))
+    ck.cov["violation_classes"] = {str(k): n for k, n in vc.items()}
     return ck.finish()
